@@ -173,12 +173,13 @@ func indPipeUnit(c *core.Ctx, e *cat.Ind, cfg []float64) {
 	var st c03stats
 	idx := 0
 	for _, n := range lengthSet(w, c.Thorough()) {
-		// length skews for multi-input indicators: equal lengths, then every input in turn shorter by 2 and longer by 2
+		// length skews for multi-input indicators: equal lengths, then every input in turn much shorter (by up to 6) and longer by 2
 		// (which input ends first decides which stage starts draining which branch)
 		skews := [][]int{make([]int, len(e.In))}
 		if len(e.In) > 1 {
 			for f := range e.In {
-				for _, d := range []int{-2, 2} {
+				// much shorter (more leftover on the other inputs than the slack of the intermediate stages) and a little longer
+				for _, d := range []int{-min(6, n), 2} {
 					sk := make([]int, len(e.In))
 					sk[f] = d
 					skews = append(skews, sk)
@@ -250,7 +251,7 @@ func stratPipeUnit(c *core.Ctx, e *cat.Strat, cfg []float64) {
 func init() {
 	core.Register(&core.Check{
 		ID:   "C03",
-		Rule: "for every catalogued indicator and strategy (base, decorated, compound) x every configuration of the deep period box x input lengths {0,1,w-1..w+3,2w+2} (all of 0..2w+2 in the thorough tier) x input channel capacity {0,1,3} x unequal input lengths for multi-input indicators (each input in turn 2 shorter / 2 longer): the network producers -> pipeline -> independent readers is explored by DPOR with sleep sets over ALL Mazurkiewicz traces (a clean Kahn network has exactly one, which DPOR establishes dynamically by finding no conflicting co-enabled operations), plus a delay-bounded (d<=1) search without independence assumptions on every 64th scenario (16th in the thorough tier); oracle at quiescence: no goroutine left, every output closed, no buffered leftovers, no panic, identical outputs on every schedule, no happens-before race; states = scenarios, transitions = scheduler events",
+		Rule: "for every catalogued indicator and strategy (base, decorated, compound) x every configuration of the deep period box x input lengths {0,1,w-1..w+3,2w+2} (all of 0..2w+2 in the thorough tier) x input channel capacity {0,1,3} x unequal input lengths for multi-input indicators (each input in turn up to 6 shorter / 2 longer): the network producers -> pipeline -> independent readers is explored by DPOR with sleep sets over ALL Mazurkiewicz traces (a clean Kahn network has exactly one, which DPOR establishes dynamically by finding no conflicting co-enabled operations), plus a delay-bounded (d<=1) search without independence assumptions on every 64th scenario (16th in the thorough tier); oracle at quiescence: no goroutine left, every output closed, no buffered leftovers, no panic, identical outputs on every schedule, no happens-before race; states = scenarios, transitions = scheduler events",
 		Assume: []string{"input values are a fixed irregular series (termination depends on lengths, not values)", "the scheduler models Go's channel/WaitGroup/Mutex semantics at operation granularity; the number of OS threads is irrelevant for a data-race-free program and race freedom is checked on every explored execution"},
 		Units: func(tier string) []core.Unit {
 			var us []core.Unit
